@@ -57,7 +57,7 @@ def p_blank_mid():
 class Card:
     """a dataclass instance as a CS1 value (equal by fields)"""
     suit: str
-    rank: int
+    value: int      # a field named like the attribute pedal's result proxy keeps its own payload in
 
 
 VALUES = [0, 1, -1, 2, True, False, 1.0, 1.0005, 1.002, 0.9995, 'a', 'A', 'abc', 'a!', 'Hello, World', 'hello world',
